@@ -1,3 +1,4 @@
+import QF.Props.Tie
 import QF.Core.Heap
 /-!
 # C01 — frames are persistent
@@ -28,5 +29,8 @@ theorem history_persistent {α : Type} (ps : List (H.Prog α)) (s : H.Store)
     (h : ∀ p, p ∈ ps → ∀ base, p.OwnWrites base) :
     ∀ id, id < List.length s → List.getD (H.runAll ps s) id [] = List.getD s id [] :=
   H.history_persistent ps s h
+
+/-- T1: the functions this property's mirror model follows have today the source text the model was written against. -/
+theorem tie : Tie.sameAll ["index.Copy", "qframe.Sort", "qframe.setColumn", "qframe.Slice", "qframe.Select", "qframe.Aggregate", "qframe.QFrame.FilteredApply", "ecolumn.toUpper", "scolumn.toUpper"] = true := by decide
 
 end QF.Props.C01
